@@ -15,14 +15,19 @@
 // config.WritePoliciesConfig) and call the entry point; the object the accessor
 // then holds was built by the code under test from that file, flags included. It
 // is recognised afterwards by its content (objOf), like every other object.
-// The model makes no difference between the entry points (Update d now /
-// UpdBegin u d now): same publication, same retention.
+// The models of suites hist / routing / fine make no difference between the
+// entry points (Update d now / UpdBegin u d now): same publication, same
+// retention. Suite failsafe (coqFailsafe below) writes the histories of suite
+// hist once more for Failsafe.estep, where they are distinct operations and the
+// diagnosisFreeReverted flag of the object the code built is an observable.
 package main
 
 import (
 	"fmt"
 	"os"
 	"path/filepath"
+	"reflect"
+	"strings"
 
 	"lunar/engine/config"
 	sharedConfig "lunar/shared-model/config"
@@ -256,9 +261,7 @@ func acrossFailsafe(n int, at func(i int) int64, install func(i int) (int, strin
 	return
 }
 
-func countFailsafe(o *c.Out, pre string, k *Case) {
-	var entries int
-	var across bool
+func countFailsafe(o *c.Out, pre string, k *Case) (entries int, across bool) {
 	if k.Fine {
 		ev := k.FEvents
 		entries, across = acrossFailsafe(len(ev), func(i int) int64 { return ev[i].Now },
@@ -279,4 +282,94 @@ func countFailsafe(o *c.Out, pre string, k *Case) {
 	if across {
 		o.Count(pre + "has_txn_first_seen_under_RevertToDiagnosisFree_and_again_within_30s_after_the_next_update")
 	}
+	return
+}
+
+// ------------------------------------------------------------------ suite failsafe
+
+// standinFlag reads PoliciesData.diagnosisFreeReverted of an object the code
+// built. The field is unexported and has no getter; it is READ by reflection
+// (nothing is written, /repo needs no shim). A tree in which the field is gone
+// is reported in a run note (and every flag reads false: the suite then
+// disagrees on the first RevertToDiagnosisFree).
+var standinFieldMissing bool
+
+func standinFlag(p *config.PoliciesData) bool {
+	if p == nil {
+		return false
+	}
+	f := reflect.ValueOf(p).Elem().FieldByName("diagnosisFreeReverted")
+	if !f.IsValid() || f.Kind() != reflect.Bool {
+		standinFieldMissing = true
+		return false
+	}
+	return f.Bool()
+}
+
+// coqFailsafe: an executed history of suite hist as a Failsafe.case_failsafe.
+// The entry points are DISTINCT operations of the model here (Failsafe.estep):
+//
+//	update / updcommit of an object supplied through entry point E   Via E obj now
+//	update / updcommit of a harness-built object                      EA (Update obj now)
+//	refused, updbegin, updfail                                        EA (Refused now)
+//	get / vactxn / vacver                                             EA (Get txn now) / EA (VacTxn now) / EA (VacVer now)
+//
+// (an update inside its HAProxy call has not touched the accessor: its Via is
+// the instant it reaches setNextVersion, the event updcommit; Model.flat says
+// the same of the split histories of suite hist). After every action:
+// EObs got ver cur standin [R <retained object> <its flag>; ...].
+// ok = false: no update of the history went through a real entry point (suite
+// hist says everything there is to say), or an operation was blocked (the
+// model has no such step; suite hist reports it).
+func coqFailsafe(k *Case) (term string, ok bool) {
+	entries := 0
+	for _, e := range k.Events {
+		switch e.A {
+		case "blocked", "req", "resp":
+			return "", false
+		case "update", "updcommit":
+			if e.Via != "" {
+				entries++
+			}
+		}
+	}
+	if entries == 0 {
+		return "", false
+	}
+	var sb strings.Builder
+	sb.WriteString("(0, [")
+	for i, e := range k.Events {
+		if i > 0 {
+			sb.WriteString("; ")
+		}
+		now := e.Now - k.T0
+		var a string
+		got, ver := 0, 0
+		switch e.A {
+		case "get":
+			a = fmt.Sprintf("EA (Get %d %d)", e.Txn, now)
+			got, ver = e.Obj, e.Ver
+		case "update", "updcommit":
+			if e.Via != "" {
+				a = fmt.Sprintf("Via %s %d %d", viaName(e.Via), e.Obj, now)
+			} else {
+				a = fmt.Sprintf("EA (Update %d %d)", e.Obj, now)
+			}
+		case "refused", "updbegin", "updfail":
+			a = fmt.Sprintf("EA (Refused %d)", now)
+		case "vactxn":
+			a = fmt.Sprintf("EA (VacTxn %d)", now)
+		case "vacver":
+			a = fmt.Sprintf("EA (VacVer %d)", now)
+		default:
+			panic("suite failsafe: unknown event " + e.A)
+		}
+		ret := make([]string, len(e.Retained))
+		for j, r := range e.Retained {
+			ret[j] = "R " + c.Z(int64(r)) + " " + c.B(j < len(e.RetFlag) && e.RetFlag[j])
+		}
+		fmt.Fprintf(&sb, "FS (%s) (EObs %s %s %s %s %s)", a, c.Z(int64(got)), c.Z(int64(ver)), c.Z(int64(e.Cur)), c.B(e.Standin), c.List(ret))
+	}
+	sb.WriteString("])")
+	return sb.String(), true
 }
